@@ -210,6 +210,44 @@ func c09Paths() []identPath {
 			d := ls.Destination()
 			return one(d.KeysAndCert), nil
 		}},
+		{"lease_set2.ReadLeaseSet2(offline keys)", false, func(k rm.KAC, r *core.Rand) ([]*keys_and_cert.KeysAndCert, error) {
+			// with an offline block: the trailing signature is the transient key's, the block's own
+			// signature the destination's — two different lengths for most pairs of types
+			l, _ := gen.LeaseSet2(r)
+			s, _ := k.Types()
+			tt := []int{7, 11, 0, 1, 2}[r.Pick(5)]
+			o := gen.OfflineOf(r, s, tt)
+			if _, ok := rm.SigLen(s); !ok {
+				return nil, fmt.Errorf("no signature length for the destination type")
+			}
+			l.Dest, l.Offline, l.Flags = k, &o, 1
+			sl, _ := rm.SigLen(tt)
+			l.Sig = r.Bytes(sl)
+			ls, _, err := lease_set2.ReadLeaseSet2(l.Encode())
+			if err != nil {
+				return nil, err
+			}
+			d := ls.Destination()
+			return one(d.KeysAndCert), nil
+		}},
+		{"meta_leaseset.ReadMetaLeaseSet(offline keys)", false, func(k rm.KAC, r *core.Rand) ([]*keys_and_cert.KeysAndCert, error) {
+			l, _ := gen.MetaLeaseSet(r)
+			s, _ := k.Types()
+			tt := []int{7, 11, 0, 1, 2}[r.Pick(5)]
+			o := gen.OfflineOf(r, s, tt)
+			if _, ok := rm.SigLen(s); !ok {
+				return nil, fmt.Errorf("no signature length for the destination type")
+			}
+			l.Dest, l.Offline, l.Flags = k, &o, 1
+			sl, _ := rm.SigLen(tt)
+			l.Sig = r.Bytes(sl)
+			ls, _, err := meta_leaseset.ReadMetaLeaseSet(l.Encode())
+			if err != nil {
+				return nil, err
+			}
+			d := ls.Destination()
+			return one(d.KeysAndCert), nil
+		}},
 		{"router_info.ReadRouterInfo", true, func(k rm.KAC, r *core.Rand) ([]*keys_and_cert.KeysAndCert, error) {
 			l, _ := gen.RouterInfo(r)
 			l.Ident = k
@@ -570,7 +608,8 @@ func c09One(c *core.Ctx, paths []identPath, sig, cr int, r *core.Rand, class str
 			p.name == "destination.NewDestination(ReadKeysAndCert)" || p.name == "router_identity.NewRouterIdentityFromKeysAndCert(ReadKeysAndCert)" ||
 			// the container parsers are fed otherwise well-formed encodings (any options, the ones a real
 			// router publishes included): a permitted, supported identity inside must not make them fail
-			p.name == "router_info.ReadRouterInfo" || p.name == "lease_set2.ReadLeaseSet2" || p.name == "meta_leaseset.ReadMetaLeaseSet"
+			p.name == "router_info.ReadRouterInfo" || p.name == "lease_set2.ReadLeaseSet2" || p.name == "meta_leaseset.ReadMetaLeaseSet" ||
+			p.name == "lease_set.ReadLeaseSet" || p.name == "lease_set2.ReadLeaseSet2(offline keys)" || p.name == "meta_leaseset.ReadMetaLeaseSet(offline keys)"
 		if direct && permitted && rm.SupportedSig(sig) && rm.SupportedCrypto(cr) {
 			c.Violate(p.name, "permitted-supported-pair-rejected", sh, enc, firstLineOf(err.Error()))
 		}
